@@ -220,3 +220,37 @@ if __name__ == '__main__' and len(sys.argv) > 1 and sys.argv[1] == 'lpffull':
 if __name__ == '__main__' and len(sys.argv) > 1 and sys.argv[1] == 'casefold':
     # casefold feature on, but every directory of the standard tree is an ordinary (case-sensitive) one
     build('casefold', ['-t', 'ext4', '-O', '^has_journal,casefold,metadata_csum,^resize_inode', '-I', '256', '-N', '1024', '-g', '256'], 3072, post=[D])
+
+def build_deepext():
+    """corpus/deepext.img.xz: metadata_csum, 1 KiB blocks; /deep has 400 single-block extents (every other block) -> extent tree of depth 2
+    (4 root entries x 84 per 1 KiB node hold at most 336 extents at depth 1), /mid has 100 extents (depth 1, two leaves), plus a few plain files"""
+    sc = scratch(); env = tool_env()
+    img = os.path.join(sc, 'deepext.img'); root = os.path.join(sc, 'deepext.root')
+    os.makedirs(root + '/d')
+    pat = lambda n, s=1: bytes(((i * 7 + s) & 0xff) for i in range(n))
+    with open(root + '/deep', 'wb') as f:
+        for i in range(400):
+            f.seek(2 * i * 1024); f.write(pat(1024, i))
+    with open(root + '/mid', 'wb') as f:
+        for i in range(100):
+            f.seek(3 * i * 1024); f.write(pat(1024, 200 + i))
+    open(root + '/small', 'wb').write(b'small\n'); open(root + '/d/x', 'wb').write(pat(3000, 7)); os.symlink('x' * 80, root + '/slow')
+    os.chown(root + '/deep', 1000, 1000)
+    rc, out = run([tool('mke2fs'), '-q', '-F', '-t', 'ext4', '-O', '^has_journal,metadata_csum,64bit,^resize_inode', '-b', '1024', '-g', '512', '-I', '256', '-N', '64', '-U', UUID,
+                   '-E', 'hash_seed=' + SEED + ',lazy_itable_init=0', '-d', root, img, '1536'], env=env)
+    assert rc == 0, out
+    rc, out = run([tool('debugfs'), '-w', '-R', 'ea_set /deep user.big %s' % ('B' * 300), img], env=env); assert rc == 0, out
+    rc, out = run([tool('e2fsck'), '-fn', img], env=env); assert rc == 0, out
+    data = open(img, 'rb').read()
+    from xck.check import check as xcheck
+    v = xcheck(data); assert not v, v
+    rc, out = run([tool('debugfs'), '-R', 'ex /deep', img], env=env); print('\n'.join(out.splitlines()[:8])); print('extent lines:', len(out.splitlines()))
+    rc, out = run([tool('debugfs'), '-R', 'stat /deep', img], env=env); print('\n'.join(l for l in out.splitlines() if 'depth' in l.lower() or 'Blockcount' in l)[:300])
+    open(os.path.join(VERIF, 'corpus', 'deepext.img.xz'), 'wb').write(lzma.compress(data, preset=6))
+    print('deepext built', len(data))
+if __name__ == '__main__' and len(sys.argv) > 1 and sys.argv[1] == 'deepext':
+    build_deepext()
+
+if __name__ == '__main__' and len(sys.argv) > 1 and sys.argv[1] == 'desc128':
+    # 128-byte group descriptors (bytes 64..127 are covered by the descriptor checksum and otherwise unused), metadata_csum; three groups
+    build('desc128', ['-t', 'ext4', '-O', '^has_journal,metadata_csum,64bit,^resize_inode', '-E', 'desc_size=128', '-I', '256', '-N', '256', '-g', '512'], 1536, post=[D])
